@@ -240,7 +240,7 @@ def _make_world(seed, kind):
     if kind == "events":
         return c14.event_world(seed, twins=False), False      # exact positional ties are outside the quantifier of C11
     if kind == "noise-free":
-        w = world2.rich_world(seed, n_chroms=3, genes_per_chrom=3, reads_per_t=0, hidden_cov=0, multimappers=False, unmapped=0, extra_len=140000)
+        w = world2.rich_world(seed, n_chroms=3, genes_per_chrom=3, reads_per_t=0, hidden_cov=0, multimappers=False, unmapped=0, extra_len=152000)
         rng = w.rng
         # unannotated isoforms whose first (last) exon begins (ends) in the middle of an intron of the annotated isoform, on both strands:
         # the left-hand and the right-hand version are mirror images of each other
@@ -367,6 +367,26 @@ def _make_world(seed, kind):
                 for _ in range(8):
                     w.make_read(chrom, list(nov), truth={"src": g.id + ".h1", "class": "end-7bp-beyond-annotated-end"}, **tail)
                 p += 3000 + 2500
+        # annotated three-exon isoforms with a second polyA site 200 bp INSIDE the terminal exon: 12 tailed reads end at the annotated end, 9 at
+        # the inner site; the alignment records come in both orientations (BAM flag 16 or not), whatever the strand of the transcript
+        for ci, chrom in enumerate(w.chrom_order):
+            p = max([g.end for g in w.genes + thin if g.chrom == chrom] + [1000]) + 2500
+            for k, strand in enumerate("+-"):
+                if p + 5000 > w.chrom_len(chrom):
+                    break
+                a = [(p, p + 399), (p + 1000, p + 1399), (p + 2000, p + 2399)]
+                g = Gene("APAIN%d_%d" % (ci + 1, k + 1), chrom, strand)
+                g.transcripts.append(Transcript(g.id + ".t1", g.id, chrom, strand, a, True, "inner-polya-site"))
+                for intr in g.transcripts[0].introns:
+                    w.plant_sites(chrom, intr, strand)
+                thin.append(g)
+                for j in range(21):
+                    ex = list(a)
+                    if j >= 12:
+                        ex = [(a[0][0] + 200, a[0][1]), a[1], a[2]] if strand == "-" else [a[0], a[1], (a[2][0], a[2][1] - 200)]
+                    tail = {"polya": 30} if strand == "+" else {"polyt": 30}
+                    w.make_read(chrom, ex, flag=16 * (j % 2), truth={"src": g.id + ".t1", "class": "annotated-end" if j < 12 else "inner-polya-site"}, **tail)
+                p += 2400 + 2500
         # unannotated three-exon transcripts seen by only two full-length reads (too few to be reported) plus unspliced 3' fragments with a
         # tail lying inside their 3'-terminal exon (on both strands; the runs on this world report novel unspliced transcripts), and
         # free-standing unspliced tailed loci of both strands
@@ -396,6 +416,14 @@ def _make_world(seed, kind):
         # the zoo loci that contain no exact positional tie (they bring their own error-free reads)
         w.genes += thin
         world2.add_zoo(w, ("ambiguous_only", "contested", "intronic", "apa", "same_coords"))
+        # the orientation of the alignment record (BAM flag 16) says nothing about the strand of the transcript: every second tailed read of
+        # the loci with two polyA sites is stored in the other orientation (cDNA reads come in both)
+        k_ = 0
+        for r in w.reads:
+            if str(r.truth.get("class", "")).startswith("reference-chain-"):
+                k_ += 1
+                if k_ % 2:
+                    r.flag ^= 16
         return w, True
     w = world2.rich_world(seed, n_chroms=3, genes_per_chrom=3, reads_per_t=5, hidden_cov=5, multimappers=False, unmapped=1,
                           zoo=("ambiguous_only", "contested", "intronic", "apa", "alt_terminal", "shifted_site", "shared_chain", "same_coords"))
